@@ -15,7 +15,8 @@ init = [live_started, [], fid, h]; progs = per thread a list of
 """
 import re
 
-OPS = {"vis": {}, "line": {"spec_only": True}, "live_race": {}, "progress_race": {"spec_only": True}}
+OPS = {"vis": {}, "line": {"spec_only": True}, "live_race": {}, "progress_race": {"spec_only": True},
+       "auto": {"spec_only": True}, "pstart": {"spec_only": True}}
 
 W = 40
 
@@ -254,7 +255,99 @@ def run_progress_race(vsched):
     return [writes, rows, 1 if ok and not sched.errors else 0]
 
 
+def _mk_sched(mode, ctl):
+    from sched_console.sched import Scheduler
+    if mode == 0:
+        return Scheduler(mode="vis", vsched=ctl)
+    return Scheduler(mode="line", seed=ctl[0], pswitch=ctl[1] / 100.0)
+
+
+def run_auto(transient, with_print, mode, ctl):
+    """auto-refreshing Live: thread 0 = [print?] live.stop(); thread 1 = the refresh thread's run()
+    (its done Event and join() are scheduler yield points); thread 2 = a user print (optional)."""
+    import os, sys
+    sys.path.insert(0, os.path.join(os.path.dirname(os.path.dirname(os.path.abspath(__file__)))))
+    from sched_console.sched import RLockProxy, HookList, SchedFile, SchedEvent, sched_join
+    import rich.live
+    from rich.console import Console
+    from rich.live import Live
+    sched = _mk_sched(mode, ctl)
+    f = SchedFile(sched)
+    console = Console(file=f, width=W, height=60, force_terminal=True, color_system=None, legacy_windows=False,
+                      record=True, _environ={}, highlight=False)
+    console._lock = RLockProxy(sched, "Console._lock")
+    console._record_buffer_lock = RLockProxy(sched, "Console._record_buffer_lock")
+    console._render_hooks = HookList(sched)
+    live = Live(frame(1, 2), console=console, auto_refresh=True, refresh_per_second=1000.0, transient=bool(transient),
+                redirect_stdout=False, redirect_stderr=False, vertical_overflow="visible")
+    live._lock = RLockProxy(sched, "Live._lock")
+    orig_start = rich.live._RefreshThread.start
+    rich.live._RefreshThread.start = lambda self: None     # the refresh thread is run by the scheduler
+    try:
+        live.start()
+    finally:
+        rich.live._RefreshThread.start = orig_start
+    rt = live._refresh_thread
+    rt.done = SchedEvent(sched, max_false=2)
+    rt.join = sched_join(sched, 1)
+    f.all.clear()
+    console._record_buffer.clear()
+
+    def t0():
+        if with_print & 1:
+            console.print("T0x1")
+        live.stop()
+
+    def t1():
+        rt.run()
+
+    def t2():
+        console.print("T2x2")
+    bodies = [t0, t1] + ([t2] if with_print & 2 else [])
+    ok = sched.run(bodies)
+    trace = [[t, c, parse_items(a[0])] if c == 2 else [t, c] + a for t, c, *a in sched.trace]
+    writes = [[t, parse_items(text)] for t, text in f.writes]
+    progs = [([[0, 1]] if with_print & 1 else []) + [[11, 1]], [[12]]] + ([[[0, 2]]] if with_print & 2 else [])
+    return [trace, writes, progs, 0 if (ok and not sched.errors) else 1, [str(e) for e in sched.errors]]
+
+
+def run_pstart(nthreads, mode, ctl):
+    """nthreads threads call progress.start() concurrently: the body must run once"""
+    import os, sys
+    sys.path.insert(0, os.path.join(os.path.dirname(os.path.dirname(os.path.abspath(__file__)))))
+    from sched_console.sched import RLockProxy, HookList, SchedFile
+    from rich.console import Console
+    from rich.progress import Progress, TextColumn
+    sched = _mk_sched(mode, ctl)
+    f = SchedFile(sched)
+    console = Console(file=f, width=W, height=60, force_terminal=True, color_system=None, legacy_windows=False,
+                      record=True, _environ={}, highlight=False)
+    console._lock = RLockProxy(sched, "Console._lock")
+    console._record_buffer_lock = RLockProxy(sched, "Console._record_buffer_lock")
+    hooks = HookList(sched)
+    maxlen = [0]
+    orig_append = hooks.append
+
+    def append(x):
+        orig_append(x)
+        maxlen[0] = max(maxlen[0], len(hooks))
+    hooks.append = append
+    console._render_hooks = hooks
+    progress = Progress(TextColumn("{task.description}"), console=console, auto_refresh=False,
+                        redirect_stdout=False, redirect_stderr=False)
+    progress._lock = RLockProxy(sched, "Live._lock")
+    progress.add_task("F1r0")
+    ok = sched.run([progress.start for _ in range(nthreads)])
+    rows = [row_tree(s) for s in vt_rows("".join(f.all))]
+    nframe = sum(1 for r in rows if r == [1, 1, 0])
+    return [len(hooks), maxlen[0], nframe, 0 if (ok and not sched.errors) else 1, [str(e) for e in sched.errors]]
+
+
 def impl(op, arg):
+    if op == "auto":
+        return run_auto(arg[0], arg[1], arg[2], arg[3])
+    if op == "pstart":
+        return run_pstart(arg[0], arg[1], arg[2])
     if op == "progress_race":
         return run_progress_race(arg[0])
     if op in ("vis", "live_race"):
@@ -294,6 +387,15 @@ def spec_cases(op, arg, out):
             cases.append(("spec.record_order", [writes, record]))
         if op == "live_race":
             cases.append(("spec.screen_rows", [writes, rows]))
+    elif op == "auto":
+        trace, writes, progs, dead, errors = out
+        cases.append(("spec.no_deadlock", [1 - dead]))
+        if not dead and not arg[0]:       # the transient erase is not in the model: trace replay for transient=0
+            cases.append(("spec.trace_ok", [0, [1, [], 1, 2], progs, trace, [[] for _ in progs]]))
+    elif op == "pstart":
+        nh, mx, nframe, dead, errors = out
+        cases.append(("spec.no_deadlock", [1 - dead]))
+        cases.append(("spec.started_once", [nh, mx, nframe]))
     elif op == "progress_race":
         writes, rows, fin = out
         cases.append(("spec.no_deadlock", [fin]))
@@ -407,6 +509,27 @@ def generate(rng, tier):
         init, progs = rcase(rng)
         vs = [rng.randrange(len(progs)) for _ in range(rng.randint(0, 80))]
         cases.append(("vis", [0, init, progs, vs]))
+    # auto-refresh thread vs stop() (join), and concurrent Progress.start(): <= 2 preemptions + random
+    two = two_preemption_schedules(rng, 0, 12 if quick else 24)
+    for transient in (0, 1):
+        for wp in (0, 1):
+            for vs in (rng.sample(two, 60) if quick else two):
+                cases.append(("auto", [transient, wp, 0, vs]))
+        for _ in range(40 if quick else 1500):
+            nt = 3 if rng.random() < 0.4 else 2
+            wp = rng.choice([0, 1]) | (2 if nt == 3 else 0)
+            if rng.random() < 0.5:
+                cases.append(("auto", [transient, wp, 0, [rng.randrange(nt) for _ in range(rng.randint(0, 60))]]))
+            else:
+                cases.append(("auto", [transient, wp, 1, [rng.randint(0, 10 ** 9), rng.choice([2, 5, 10, 30])]]))
+    for vs in (rng.sample(two, 80) if quick else two):
+        cases.append(("pstart", [2, 0, vs]))
+    for _ in range(60 if quick else 2000):
+        nt = rng.choice([2, 2, 3])
+        if rng.random() < 0.5:
+            cases.append(("pstart", [nt, 0, [rng.randrange(nt) for _ in range(rng.randint(0, 40))]]))
+        else:
+            cases.append(("pstart", [nt, 1, [rng.randint(0, 10 ** 9), rng.choice([2, 5, 10, 30])]]))
     # line-level preemption, seeded
     for _ in range(1500 if quick else 40000):
         init, progs = rcase(rng)
@@ -419,5 +542,9 @@ def describe(op, arg):
              9: "start", 10: "stop"}
     if op == "progress_race":
         return "progress_race: print || add_task refresh"
+    if op == "auto":
+        return "auto: [print] stop(join) || refresh-thread run" + (" transient" if arg[0] else "")
+    if op == "pstart":
+        return "pstart: %d x progress.start()" % arg[0]
     progs = arg[2] if op != "line" else arg[1]
     return op + ": " + " || ".join(" ".join(names[o[0]] for o in p) for p in progs)
